@@ -306,6 +306,18 @@ class Session:
         self.mhyps_not_met = 0
         self.mhyps_desync = 0
 
+    timeout_impl = 120       # seconds per request (a refinement pass of the largest generated mesh takes < 2 s under ASan)
+    timeout_model = 600
+
+    @staticmethod
+    def _readline(proc, timeout):
+        """one answer line, or None when the process stays silent for `timeout` seconds"""
+        import select
+        r, _, _ = select.select([proc.stdout], [], [], timeout)
+        if not r:
+            return None
+        return proc.stdout.readline()
+
     def new_history(self):
         self.trace = []
 
@@ -314,9 +326,17 @@ class Session:
         self.n_lines += 1
         try:
             self.h.stdin.write(line + "\n"); self.h.stdin.flush()
-            a = self.h.stdout.readline()
+            a = self._readline(self.h, self.timeout_impl)
         except (BrokenPipeError, OSError):
             a = ""
+        if a is None:
+            # the real code did not answer: "always returns or throws after a bounded number of operations" is part of C11
+            try:
+                self.h.kill()
+            except OSError:
+                pass
+            self.crashed = {"line": line, "rc": "timeout", "stderr": "the real code did not return within %d s on this request" % self.timeout_impl}
+            return None, None
         if a == "":
             rc = self.h.poll()
             err = ""
@@ -329,7 +349,14 @@ class Session:
         a = a.rstrip("\n")
         try:
             self.m.stdin.write(line + "\n"); self.m.stdin.flush()
-            b = self.m.stdout.readline().rstrip("\n")
+            b = self._readline(self.m, self.timeout_model)
+            if b is None:
+                try:
+                    self.m.kill()
+                except OSError:
+                    pass
+                b = "<model driver did not answer within %d s>" % self.timeout_model
+            b = b.rstrip("\n")
         except (BrokenPipeError, OSError):
             b = "<model driver died>"
         # the model appends ' # mhyps <held> <not met>' to the answers of executed collapses (single 'merge' requests and
